@@ -950,6 +950,19 @@ func (ce *CEnv) callSpec(sf *SpecFunc, e *ECall) CVal {
 	}
 	rt := senv.resolveType(sf.Result)
 	rs := ce.te().sortOf(rt)
+	if sf.Abstract {
+		// uninterpreted function of its arguments (independent of the heap)
+		var sorts []string
+		for _, a := range actuals {
+			sorts = append(sorts, a.Sort)
+		}
+		name := "abs_" + sf.Name
+		u.sc.declareFun(name, sorts, rs)
+		if len(actuals) == 0 {
+			return CVal{T: Term{name, rs}, Ty: rt}
+		}
+		return CVal{T: mk(rs, name, actuals...), Ty: rt}
+	}
 	// heap identity: the definition closes over the current heap version constants
 	hkey := sf.Name + "|" + heapKey(ce.heap) + "|" + heapKey(ce.old)
 	if ce.wmEntry != nil {
